@@ -47,7 +47,17 @@ def analyse(ctx):
             stmts = f['body']['stmts']
             if f['output'].strip() == '' and stmts and all(st['k'] == 's_expr' and st['expr'].get('k') == 'mcall' and st['expr']['method'] == 'truncate'
                                                            and 'contexts' in render(st['expr']['recv']) for st in stmts):
-                c.symtab_reset.add(name)
+                what = set()
+                for st in stmts:
+                    rcv = render(st['expr']['recv'])
+                    arg = st['expr']['args'][0].get('value') if st['expr']['args'] else None
+                    if rcv == 'self.contexts' and arg == 1:
+                        what.add('contexts')
+                    elif 'symbols' in rcv and arg == 1:
+                        what.add('scopes')
+                c.symtab_reset[name] = what
+            if 'Option<Symbol>' in f['output'].replace(' ', '') and name != 'resolve':
+                c.symtab_resolve.add(name)
         from rules import tables
         pt = tables.pratt_tables(ctx)
         # what the parser can put into the operator fields (R07.6 checks these sets)
@@ -57,6 +67,7 @@ def analyse(ctx):
         viols = {}
         arms = []
         errs = []
+        toperrs = []
         fused = []
         emits = 0
 
@@ -94,6 +105,24 @@ def analyse(ctx):
                                 viols.setdefault(('O6', meth, tr + ' / escape ' + k,
                                                   {'return': '`antwoord` outside any function body compiles to ReturnValue in top-level code (pops the base frame)',
                                                    'break': '`stop` escapes every loop', 'continue': '`volgende` escapes every loop'}[k]), None)
+                elif is_err and top:
+                    left = []
+                    if st.scopes:
+                        left.append('%d open scope(s)' % st.scopes)
+                    if st.frames:
+                        left.append('%d open function context(s)' % len(st.frames))
+                    if st.loops:
+                        left.append('%d loop context(s)' % len(st.loops))
+                    if st.emitted or st.pending:
+                        left.append('half-emitted code')
+                    if st.last not in ('None', '?') and st.emitted:
+                        left.append('peephole register')
+                    NAMES = {'scopes': 'open scope(s) of nested blocks', 'contexts': 'open function context(s)', 'loops': 'loop context(s)', 'code': 'half-emitted code', 'last': 'the peephole register'}
+                    for d_ in sorted(st.dirty):
+                        left.append(NAMES.get(d_, d_) + ' left by the failed statement')
+                    if left:
+                        viols.setdefault(('R17.2', meth, 'error exit', 'a failed compilation returns with ' + ', '.join(sorted(set(left)))), None)
+                    toperrs.append(tr)
                 elif is_err:
                     errs.append({'method': meth, 'trace': tr, 'emitted': st.emitted, 'loops': len(st.loops), 'scopes': st.scopes,
                                  'contexts': len(st.frames), 'pending': len(st.pending)})
@@ -121,6 +150,6 @@ def analyse(ctx):
                 sites.setdefault(name, {}).setdefault(n['method'], 0)
                 sites[name][n['method']] += 1
         return {'csa': c, 'rounds': rounds, 'violations': [dict(oblig=k[0], method=k[1], construct=k[2] + ' :: ' + k[3], text=v or k[3]) for k, v in viols.items()],
-                'arms': arms, 'errs': errs, 'fused': fused, 'sites': sites, 'vm_problems': probs, 'optable': opt, 'decl': decl,
+                'arms': arms, 'errs': errs, 'toperrs': toperrs, 'fused': fused, 'sites': sites, 'vm_problems': probs, 'optable': opt, 'decl': decl,
                 'summaries': {m: [(repr(x.dh), x.last, x.reach) for x in ex.values()] for m, ex in c.summaries.items()}}
     return _memo(ctx, 'csa', build)
